@@ -288,6 +288,26 @@ class Gen:
             out += ch
         return bytes(out) + tail
 
+    def framed_batches(self) -> bytes:
+        import struct as _st
+        from . import refbatch
+        r = self.r
+
+        def one():
+            n = r.choice([0, 1, 1, 2, 3])
+            body = b""
+            for i in range(n):      # minimal records: attributes, timestamp delta, offset delta, null key, value, no headers
+                val = bytes(r.getrandbits(8) for _ in range(r.choice([0, 1, 5, 20])))
+                rec = b"\x00" + refbatch.svarlong(i) + refbatch.svarint(i) + refbatch.svarint(-1) + refbatch.svarint(len(val)) + val + refbatch.uvarint(0)
+                body += refbatch.svarint(len(rec)) + rec
+            post = _st.pack(">hiqqqhii", 0, max(n - 1, 0), 1700000000000, 1700000000000 + max(n - 1, 0), r.choice([-1, 9001]),
+                            r.choice([-1, 3]), r.choice([-1, 120]), n) + body
+            return _st.pack(">qiibI", r.choice([0, 1000, 4000000125]), len(post) + 9, r.choice([-1, 0, 7]), 2, refbatch.crc32c(post)) + post
+        out = b"".join(one() for _ in range(r.choice([1, 1, 2])))
+        nxt = one()
+        tail = r.choice([b"", nxt[: len(nxt) // 2], nxt[:12], nxt[:17], nxt[:-1], bytes(r.getrandbits(8) for _ in range(r.choice([1, 3, 7])))])
+        return out + tail
+
     def prim(self, kafka: str, canonical=True):
         r = self.r
         self.count("prim:" + kafka)
@@ -312,6 +332,12 @@ class Gen:
             return ("f64", bits)
         if kafka == "string":
             return ("str", self.utf8(self.length()))
+        if kafka == "records" and r.random() < 0.3:
+            # what a records field really carries: well-framed magic-2 batches (one or two whole ones), followed - as in any
+            # size-limited fetch - by nothing, by the first part of another batch, by a bare header fragment or by stray bytes.
+            # The field is opaque bytes to the codec: every byte must survive.
+            self.count("records:framed-batches")
+            return ("bytes", self.framed_batches())
         if kafka in ("bytes", "records"):
             return ("bytes", bytes(r.getrandbits(8) for _ in range(self.length())))
         if kafka == "uuid":
@@ -320,6 +346,15 @@ class Gen:
                 b = bytearray(16)
                 b[r.randrange(16)] = r.randrange(1, 256)
                 return ("uuid", bytes(b))
+            if c < 0.45:
+                # structured UUIDs as people write them in fixtures and as brokers mint them: equal / mirrored halves, one
+                # repeated byte, the maximum, small integers, a zero half (never the all-zero null form)
+                self.count("uuid:structured")
+                h = bytes(r.getrandbits(8) for _ in range(8))
+                k = r.randrange(9)
+                b = [h + h, h + h[::-1], bytes([r.randrange(1, 256)]) * 16, b"\xff" * 16, (r.randrange(1, 300)).to_bytes(16, "big"),
+                     h + bytes(8), bytes(8) + h, h + bytes(x ^ 0xFF for x in h), bytes(range(1, 17))][k]
+                return ("uuid", b if any(b) else b"\x01" * 16)
             return ("uuid", bytes(r.getrandbits(8) for _ in range(16)) or b"\x01" * 16)
         if kafka == "bool":
             return ("bool", r.random() < 0.5)
